@@ -131,7 +131,7 @@ def detectorMatches (refs : List RefSt) (ds : List Detector) : Bool :=
 def mustRefresh (c : Cfg) (d : Detector) (now : Int) (started : Int) (err : ErrKind) (dl : Option Int) : Bool :=
   c.detection &&
   (match err, dl with | .deClient, some x => x ≤ now | _, _ => false) &&
-  started ≥ d.epoch && d.de + 1 ≥ c.uc && now - d.epoch > windowNs c d.k && !d.refreshing
+  started ≥ d.epoch && d.de + 1 ≥ c.uc && now - d.epoch > ((c.ums * 2 ^ d.k : Nat) : Int) * 1000000 && !d.refreshing
 
 /-! ### C09: round robin -/
 
@@ -486,7 +486,7 @@ def MonState.observe (m : MonState) (op : Op) (evs : List String) (post : Option
     if m.calls.isEmpty && !(v.refs.all fun r => r.streamsCnt == 0) then fails := fails ++ [("C02", "streams_zero_when_idle")]
     if !affinityRefines v.affinity v.refs m.bound then fails := fails ++ [("C01", "affinity_refines")]
     if !fallbackReady v.fallback v.scStates then fails := fails ++ [("C08", "fallback_ready")]
-    if c.min ≤ c.max && !m.shutdownSeen && !sizeBounded v.scRefs c.max then fails := fails ++ [("C03", "size_bounded")]
+    if c.min ≤ c.max && !sizeBounded v.scRefs c.max then fails := fails ++ [("C03", "size_bounded")]
     if !refreshBounded v.refreshingMap v.refs then fails := fails ++ [("C03", "refresh_bounded")]
     if m.started && !addrsCurrent m.scAddrs m.addrs v.scRefs v.refreshingMap then fails := fails ++ [("C20", "addrs_current")]
     if !detectorMatches v.refs m.detectors then fails := fails ++ [("C07", "detector_refines")]
